@@ -89,7 +89,18 @@ def _run(subj, sim, ops, r):
     flags = set()
     attached_order = []
 
-    def make_handler(hid):
+    class _Collector(list):
+        """A handler that is a callable OBJECT - here a list collecting what it was called with, so bool(handler) is False
+        while it is empty."""
+
+        def __init__(self, fn):
+            super().__init__()
+            self.fn = fn
+
+        def __call__(self, *a, **k):
+            return self.fn(*a, **k)
+
+    def make_handler(hid, as_object=False):
         if subj == 'v2':
             def h(name, app_param, reply, context):
                 calls.append({'hid': hid, 'name': [bytes(c) for c in name], 'reply': reply, 'ctx': context,
@@ -97,7 +108,7 @@ def _run(subj, sim, ops, r):
         else:
             def h(name, param, app_param):
                 calls.append({'hid': hid, 'name': [bytes(c) for c in name], 't': sim.vl.now_ms() if sim else 0})
-        return h
+        return _Collector(h) if as_object else h
 
     def _mutable_arg(key, rep):
         """rep 7..9: the caller's name lives in mutable buffers which the caller overwrites right after the call"""
@@ -121,7 +132,7 @@ def _run(subj, sim, ops, r):
         else:
             arg = P.name_in_rep([[T.read_num(c, 0, len(c))[0], bytes(c[T.read_tlv(c, 0, len(c))[2]:]).hex()] for c in key], rep)
         gen[0] += 1
-        h = make_handler(gen[0])
+        h = make_handler(gen[0], as_object=rep % 3 == 2 and val is None)
         if subj == 'v2':
             from ndn.types import ValidResult
             validator = None
